@@ -165,8 +165,8 @@ func vC04CaseHist(out *vC04Out, r *rand.Rand) {
 	if r.Intn(3) == 0 {
 		name = "WwW.c04.TEST."
 	}
-	kind := []int{0, 0, 0, 1, 1, 2, 3, 4, 5, 6}[r.Intn(10)]
-	signed := r.Intn(2) == 0 && kind != 3 && kind != 4 && kind != 5
+	kind := []int{0, 0, 0, 1, 1, 2, 3, 4, 5, 6, 7}[r.Intn(11)]
+	signed := r.Intn(2) == 0 && kind != 3 && kind != 4 && kind != 5 && kind != 7
 	resp := vC04GenResponse(r, name, kind, signed)
 	cd := r.Intn(6) == 0
 	resp.CheckingDisabled = cd
